@@ -207,7 +207,7 @@ def sensitivity(prop, only=None) -> int:
             if expect == "caught-thorough-history":
                 # needs four particular calls in one history: more histories
                 env["VERIF_C10_MODE"] = "history"
-                cmd = [os.path.join(VERIF, "check"), prop, "--runs", "12000", "--wall", "1200"]
+                cmd = [os.path.join(VERIF, "check"), prop, "--runs", "36000", "--wall", "1800"]
                 expect = "caught"
             p = subprocess.run(cmd, env=env, capture_output=True, text=True, timeout=3600)
             got = "caught" if (p.returncode == 1 and "VIOLATION property=" in p.stdout) else ("quiet" if p.returncode == 0 else f"error({p.returncode})")
